@@ -12,6 +12,7 @@
 #include <etl/_iterator/next.hpp>
 #include <etl/_iterator/prev.hpp>
 #include <etl/_iterator/reverse_iterator.hpp>
+#include <etl/_memory/addressof.hpp>
 #include <etl/_memory/ranges_construct_at.hpp>
 #include <etl/_memory/ranges_destroy.hpp>
 #include <etl/_memory/ranges_destroy_at.hpp>
@@ -20,8 +21,10 @@
 #include <etl/_type_traits/conditional.hpp>
 #include <etl/_type_traits/is_nothrow_copy_constructible.hpp>
 #include <etl/_type_traits/is_nothrow_move_constructible.hpp>
+#include <etl/_type_traits/is_trivially_copy_assignable.hpp>
 #include <etl/_type_traits/is_trivially_copy_constructible.hpp>
 #include <etl/_type_traits/is_trivially_destructible.hpp>
+#include <etl/_type_traits/is_trivially_move_assignable.hpp>
 #include <etl/_type_traits/is_trivially_move_constructible.hpp>
 #include <etl/_type_traits/smallest_size_t.hpp>
 #include <etl/_utility/exchange.hpp>
@@ -68,6 +71,43 @@ struct TETL_TRIVIAL_ABI inplace_vector {
         etl::uninitialized_move(other.begin(), other.end(), begin());
         _size = other._size; // NOLINT(cppcoreguidelines-prefer-member-initializer)
         other.clear();
+    }
+
+    auto operator=(inplace_vector const& other) -> inplace_vector&
+        requires(
+            etl::is_trivially_copy_assignable_v<T> and etl::is_trivially_copy_constructible_v<T>
+            and etl::is_trivially_destructible_v<T>
+        )
+    = default;
+
+    constexpr auto operator=(inplace_vector const& other) noexcept(etl::is_nothrow_copy_constructible_v<T>)
+        -> inplace_vector&
+    {
+        if (this != etl::addressof(other)) {
+            clear();
+            etl::uninitialized_copy(other.begin(), other.end(), begin());
+            _size = other._size;
+        }
+        return *this;
+    }
+
+    auto operator=(inplace_vector&& other) -> inplace_vector&
+        requires(
+            etl::is_trivially_move_assignable_v<T> and etl::is_trivially_move_constructible_v<T>
+            and etl::is_trivially_destructible_v<T>
+        )
+    = default;
+
+    constexpr auto operator=(inplace_vector&& other) noexcept(etl::is_nothrow_move_constructible_v<T>)
+        -> inplace_vector&
+    {
+        if (this != etl::addressof(other)) {
+            clear();
+            etl::uninitialized_move(other.begin(), other.end(), begin());
+            _size = other._size;
+            other.clear();
+        }
+        return *this;
     }
 
     ~inplace_vector()
